@@ -11,8 +11,8 @@ use sv_parser::*;
 
 pub fn cases(tier: Tier) -> u64 {
     match tier {
-        Tier::Quick => 3200,
-        Tier::Thorough => 96000,
+        Tier::Quick => 32000,
+        Tier::Thorough => 600000,
         Tier::Tiny => 64,
     }
 }
